@@ -4,6 +4,7 @@ import json, os, random
 from . import core
 
 WRITERS = ["mem", "memdb", "big"]
+ALL_WRITERS = ["mem", "memdb", "big", "mem2"]     # mem2: one IndexWriter flushed twice (into a DB, then to the file)
 MODES = ["ondemand", "preload"]
 
 # xxhash64("a" ‖ 0x00 ‖ value) == 0 for this value (found by inverting xxhash on 16 bytes)
@@ -138,6 +139,20 @@ class Dataset:
     @staticmethod
     def from_json(did, j):
         return Dataset(did, [{bytes.fromhex(c): bytes.fromhex(v) for c, v in r} for r in j["rows"]], j.get("kind", "replay"))
+
+
+SEPARATORS = [b"", b"\x01", b":", b"=", b" ", b"|", b"\xff", b"\n", b"/"]
+
+
+def prefix_dataset(did, sep):
+    """Column names that are prefixes of each other with values that line up: column ‖ sep ‖
+    value coincides for different (column,value) pairs unless the separator really separates
+    (the NUL separator itself is the excluded domain of C01)."""
+    rows = [{b"a": b"b" + sep + b"c"}, {b"a" + sep + b"b": b"c"}, {b"a": b"b"}, {b"a" + sep + b"b": b""}, {b"a" + sep + b"b" + sep + b"c": b""},
+            {b"a": b"b" + sep + b"c", b"a" + sep + b"b": b"x"}, {}]
+    if sep == b"":
+        rows = [{b"a": b"bc"}, {b"ab": b"c"}, {b"a": b"b"}, {b"ab": b""}, {b"abc": b""}, {b"a": b"bc", b"ab": b"x"}, {}]
+    return Dataset(did, rows, "prefix-columns")
 
 
 def small_dataset(rng, did, hostile=True):
